@@ -1,3 +1,54 @@
-import SonicModel.Impl.Get
+/-
+  C14 — validating lazy APIs never hand out malformed fragments.
+-/
+import SonicModel.Thm.C10
 namespace Sonic.Thm.C14
+open Sonic Gen Impl Spec
+
+/-- **soundness of the checked `get` on arbitrary bytes**: whenever the entry point returns a
+    value, (1) its span lies inside the input and is non-empty, (2) the span is exactly one
+    well-formed JSON value with no surrounding whitespace, (3) the text up to the end of the value
+    is valid UTF-8 (byte carriers), and (4) everything that had to be traversed was well-formed —
+    the specification lookup, which validates every traversed name, separator and member, finds
+    the same span.  Bytes after the value are not constrained. -/
+theorem checked_get_sound (buf : Buf) (path : List Step) (s e : Nat)
+    (h : getEntry true buf path = .found s e) :
+    s < e ∧ e ≤ buf.size ∧ value false (Spec.fuelFor buf) buf s = .ok e ∧
+      e ≤ Spec.utf8FirstInvalid buf 0 ∧ lookup buf path = .found s e := by
+  unfold getEntry at h
+  cases hg : getChecked buf.size buf 0 path with
+  | found s' e' =>
+    simp only [hg] at h
+    split at h
+    · simp at h
+    · rename_i hu
+      simp only [GRes.found.injEq] at h
+      obtain ⟨rfl, rfl⟩ := h
+      have hl := (C10.get_found_iff buf path s' e').mp hg
+      have hw := C10.look_found_wf buf path _ s' e' hl
+      refine ⟨hw.2.1, hw.2.2, hw.1, ?_, hl⟩
+      simp at hu
+      omega
+  | err c p => simp [hg] at h
+  | fuel => simp [hg] at h
+
+/-- and conversely nothing resolvable is refused: if the path resolves in the text and the text up
+    to the end of the value is valid UTF-8, the checked `get` returns that span -/
+theorem checked_get_complete (buf : Buf) (path : List Step) (s e : Nat)
+    (hl : lookup buf path = .found s e) (hu : e ≤ Spec.utf8FirstInvalid buf 0) :
+    getEntry true buf path = .found s e := by
+  have hg := (C10.get_found_iff buf path s e).mpr hl
+  unfold getEntry
+  simp only [hg]
+  have : ¬ (Spec.utf8FirstInvalid buf 0 < e) := by omega
+  simp [this]
+
+/-! non-vacuity: `{xx"a":1}` is refused (this is the input the unrepaired walker answered `1` for) -/
+def ex1 : Buf := #[123, 120, 120, 34, 97, 34, 58, 49, 125]
+example : lookup ex1 [.key [97]] = .malformed := by decide +kernel
+example : (getEntry true ex1 [.key [97]]).coarse = .other := by decide +kernel
+/-- `{"b":2,"a":1}x` : trailing garbage is not looked at -/
+def ex2 : Buf := #[123, 34, 98, 34, 58, 50, 44, 34, 97, 34, 58, 49, 125, 120]
+example : getEntry true ex2 [.key [97]] = .found 11 12 := by decide +kernel
+
 end Sonic.Thm.C14
